@@ -183,6 +183,14 @@ func (rt *runtime) cmplEvaluateNodeForInStatement(node *nodeForInStatement) Valu
 	labels := append(rt.labels, "") //nolint:gocritic
 	rt.labels = nil
 
+	// 12.6.4 (for (var x = e in o)): the initialiser runs once, before the object
+	// expression; the iterations only assign the property names to the variable.
+	var initialised *nodeVariableExpression
+	if variable, ok := node.into.(*nodeVariableExpression); ok && variable.initializer != nil {
+		rt.cmplEvaluateNodeVariableExpression(variable)
+		initialised = &nodeVariableExpression{name: variable.name, idx: variable.idx}
+	}
+
 	source := rt.cmplEvaluateNodeExpression(node.source)
 	sourceValue := source.resolve()
 
@@ -194,6 +202,9 @@ func (rt *runtime) cmplEvaluateNodeForInStatement(node *nodeForInStatement) Valu
 	sourceObject := rt.toObject(sourceValue)
 
 	into := node.into
+	if initialised != nil {
+		into = initialised
+	}
 	body := node.body
 
 	result := emptyValue
